@@ -61,7 +61,7 @@ func sxNext(name, kind string) (string, bool) {
 	for sxPos < len(sxInputs) {
 		in := sxInputs[sxPos]
 		switch in.Kind {
-		case "rand", "randf", "clock", "env", "parsefloat":
+		case "rand", "randf", "clock", "env", "parsefloat", "taxhash":
 			sxPos++ // environment draws are not fed through the prelude
 			continue
 		}
